@@ -344,6 +344,11 @@ func (w *World) execLongForm(stepIdx int, st *Step) {
 		mustReject("initial-state-truncated", short+":"+state[:len(state)-4])
 		mustReject("initial-state-empty", short+":")
 	}
+	// DID URL syntax and stray characters after the DID: the string no longer ends with the initial state
+	for _, tail := range []string{"#", "#key-1", "?service=files", "?versionId=1", "/path", ";a=b", " ", "\n", "\r\n", "%20", ".", ":"} {
+		mustReject("did-url-tail", long+tail)
+	}
+	mustReject("did-url-head", " "+long)
 	mustReject("short-form", short)
 	mustReject("suffix-swapped", ns+":"+ref.HashBytes(ref.SHA256, []byte("another"))+":"+state)
 	mustReject("extra-segment", short+":extra:"+state)
